@@ -1,6 +1,7 @@
 #!/bin/bash
 # usage: seedcheck.sh <patch.diff> <ID> [<ID>...] : apply a seeded change to /repo, run the quick checks, undo it
 patch=$1; shift
+export VERIF_EVIDENCE_DIR=/var/tmp/seed-evidence
 cd /repo && git diff --quiet || { echo "/repo working tree not clean"; exit 2; }
 git -C /repo apply "$patch" || { echo "patch does not apply"; exit 2; }
 for id in "$@"; do
